@@ -698,6 +698,20 @@ func (s *rstate) eval(e gen.Expr) (interface{}, error) {
 			}
 			return b.String(), nil
 		}
+		if e.Fn == "names" {
+			seen := map[string]bool{}
+			var ns []string
+			for _, sc := range s.scopes {
+				for n := range sc {
+					if !seen[n] {
+						seen[n] = true
+						ns = append(ns, n)
+					}
+				}
+			}
+			sort.Strings(ns)
+			return strings.Join(ns, ","), nil
+		}
 		if !contains(FuncNames, e.Fn) {
 			return nil, merr("undeclared function %q", e.Fn)
 		}
